@@ -8,7 +8,7 @@
 (* The specification keeps its own pool of abstract values and applies the  *)
 (* producer functions of MessageOps / Items to it.  Non-blocking: every     *)
 (* line is consumed, `verdict` says what held.                              *)
-EXTENDS MessageOps, Items, Json, TLC
+EXTENDS MessageOps, Ellipsis, Json, TLC
 Trace == ndJsonDeserialize("trace.ndjson")
 VARIABLES l, pool, dig, verdict
 tvars == <<l, pool, dig, verdict>>
@@ -34,11 +34,17 @@ IsRefusal(r) == "refused" \in DOMAIN r
 \* ------------------------------------------------------------------ what each call must produce
 MsgAt(i) == Rec(pool[i].abs)
 ItemAt(i) == pool[i].abs
+\* a fill: repeat counts first (the documented expansion), then the values; an item filled into a variable of a list is
+\* inserted as it is (its own variables are not touched by this call). Where a name would occur twice, the fill is refused.
+FillExp(item, op) ==
+  LET t1 == IF item.f = "L" THEN Spec(item, op.cnt) ELSE item
+      t2 == IF item.f = "L" THEN SpecNumbered(item, op.cnt) ELSE item IN
+  [ok |-> NoDup(Vars(t1)) /\ NoDup(Vars(Subst(t1, op.sigma))), exp |-> Subst(t1, op.sigma), alt |-> Subst(t2, op.sigma)]
 \* expected result of a producer: a message record, or Refused
 Expected(op) ==
   CASE op.k = "setwait"    -> WaitBitRes(MsgAt(op.id), op.b)
     [] op.k = "setsession" -> SessionRes(MsgAt(op.id), op.sid, op.sys)
-    [] op.k = "fillmsg"    -> FillRes(MsgAt(op.id), Norm(Subst(pool[op.id].abs.item, op.sigma)))
+    [] op.k = "fillmsg"    -> FillRes(MsgAt(op.id), Norm(FillExp(pool[op.id].abs.item, op).exp))
     [] op.k = "newmsg"     -> NewRes(op.name, op.s, op.f, op.w, op.dir, Norm(ItemAt(op.item)))
     [] op.k = "newhsms"    -> IF op.w \notin {0, 1} \/ op.sid = -1 \/ Vars(ItemAt(op.item)) # <<>> THEN Refused
                               ELSE OrRefuse([name |-> op.name, s |-> op.s, f |-> op.f, w |-> op.w, dir |-> op.dir,
@@ -49,7 +55,13 @@ Expected(op) ==
 NameFree(op) == op.k = "decode"      \* name and direction are not on the wire
 C18Holds(e) ==
   LET op == e.op IN
-  IF op.k \in {"setwait", "setsession", "fillmsg", "newmsg", "newhsms", "decode"} THEN
+  IF op.k = "fillmsg" THEN
+     LET fx == FillExp(pool[op.id].abs.item, op) IN
+     IF ~fx.ok THEN e.res.outcome = "refused"
+     ELSE /\ e.res.outcome = "new" /\ e.res.kind = "msg"
+          /\ Rec(e.res.abs) = FillRes(MsgAt(op.id), Norm(fx.exp)) \/ Rec(e.res.abs) = FillRes(MsgAt(op.id), Norm(fx.alt))
+          /\ RepOK(Rec(e.res.abs))
+  ELSE IF op.k \in {"setwait", "setsession", "newmsg", "newhsms", "decode"} THEN
      LET exp == Expected(op) IN
      IF IsRefusal(exp) THEN e.res.outcome = "refused"
      ELSE /\ e.res.outcome \in {"new", "same"}
@@ -58,11 +70,14 @@ C18Holds(e) ==
           /\ RepOK(Rec(e.res.abs))                       \* same validity rules as a freshly constructed message
           /\ (e.res.outcome = "same" => (op.k = "setwait" /\ MsgAt(op.id).w # 2))
   ELSE IF op.k = "fillitem" THEN
-     e.res.outcome = "new" /\ Norm(e.res.abs) = Norm(Subst(ItemAt(op.id), op.sigma))
+     LET fx == FillExp(ItemAt(op.id), op) IN
+     IF ~fx.ok THEN e.res.outcome = "refused"
+     ELSE e.res.outcome = "new" /\ (Norm(e.res.abs) = Norm(fx.exp) \/ Norm(e.res.abs) = Norm(fx.alt))
   ELSE IF op.k = "newlist" THEN
      e.res.outcome = "new" =>
         Norm(e.res.abs) = [f |-> "L", e |-> [i \in 1..Len(op.args) |->
-                              IF "id" \in DOMAIN op.args[i] THEN Norm(ItemAt(op.args[i].id)) ELSE [var |-> op.args[i].var]]]
+                              IF "id" \in DOMAIN op.args[i] THEN Norm(ItemAt(op.args[i].id))
+                              ELSE IF "ell" \in DOMAIN op.args[i] THEN [ell |-> op.args[i].ell] ELSE [var |-> op.args[i].var]]]
   ELSE IF op.k \in {"newctrl", "decodectrl"} THEN
      \* a control message holds the ten header bytes it was given (shorter input padded with zeros)
      (e.res.outcome = "new" => e.res.abs.hdr = [i \in 1..10 |-> IF i <= Len(op.hdr) THEN op.hdr[i] ELSE 0])
